@@ -10,6 +10,7 @@ import (
 	"path/filepath"
 	"sort"
 	"strings"
+	"sync"
 
 	"gocv/internal/spec"
 
@@ -20,6 +21,9 @@ import (
 
 // Engine holds the loaded program and all contracts.
 type Engine struct {
+	NoBatch    bool // solve every frame obligation on its own
+	mapValOnce sync.Once
+	mapValKeys map[string]bool // heap cells that can hold map values
 	Fset       *token.FileSet
 	Prog       *ssa.Program
 	Pkgs       []*packages.Package
@@ -107,6 +111,9 @@ func (e *Engine) AddContractFile(path, pkgPath string) error {
 			if k := e.functypeKey(fc.Name, pkgPath); k != "" {
 				e.Contracts[k] = fc
 				continue
+			}
+			if e.typesPkg(pkgPath) == nil {
+				continue // the package is not part of this program: its function types cannot occur
 			}
 			return fmt.Errorf("%s:%d: cannot resolve function type %q", path, fc.Line, fc.Name)
 		}
